@@ -272,6 +272,17 @@ void run_spline(Tape& t, Ctx& ctx, const char* sname) {
   std::vector<double> T; MatrixType P; double t0; BoundaryConditions<DIM> bc;
   gen_inputs(T, P, t0, bc);
   Spline sp(T, P, t0, bc);
+  // the very first accessor used on a new or freshly updated spline may be any of the four (copies included)
+  auto same_traj = [&](const PP& x, const PP& y) {
+    return x.getNumSegments() == y.getNumSegments() && x.getBreakpoints() == y.getBreakpoints() && x.getCoefficients().rows() == y.getCoefficients().rows() &&
+           (x.getCoefficients().array() == y.getCoefficients().array()).all() && x.isInitialized() == y.isInitialized();
+  };
+  if (t.flag()) {
+    PP first = t.flag() ? sp.getPPolyCopy() : sp.getTrajectoryCopy();
+    Spline twin(T, P, t0, bc);
+    VCHECK(ctx, same_traj(first, twin.getTrajectory()), "trajectory-not-updated", sname << ": the trajectory copy taken right after construction (before any other accessor) is not the constructed trajectory");
+    ctx.label("first-accessor-after-construction:copy");
+  }
   const PP& live = sp.getTrajectory();
   const PP& live2 = sp.getPPoly();
   int rounds = t.rangez(1, 6, 2);
@@ -314,7 +325,20 @@ void run_spline(Tape& t, Ctx& ctx, const char* sname) {
     if (ctx.want_desc) ctx.desc << (r ? "," : "") << "{\"N\": " << T2.size() << ", \"by_points\": " << (by_points ? "true" : "false") << ", \"queries\": " << nq << "}";
     Spline fresh = by_points ? Spline(tp, P2, bc2) : Spline(T2, P2, t02, bc2);
     const PP& ft = fresh.getTrajectory();
-    VCHECK(ctx, &sp.getTrajectory() == &live || true, "x", "x");
+    {
+      int first = t.range(0, 4);
+      static const char* fn[] = {"getPPolyCopy()", "getTrajectoryCopy()", "reference obtained before the update", "getTrajectory()", "getPPoly()"};
+      bool ok = true;
+      switch (first) {
+        case 0: { PP c = sp.getPPolyCopy(); ok = same_traj(c, ft); break; }
+        case 1: { PP c = sp.getTrajectoryCopy(); ok = same_traj(c, ft); break; }
+        case 2: ok = same_traj(live, ft) && same_traj(live2, ft); break;
+        case 3: ok = same_traj(sp.getTrajectory(), ft); break;
+        default: ok = same_traj(sp.getPPoly(), ft); break;
+      }
+      ctx.label(std::string("first-accessor-after-update:") + fn[first]);
+      VCHECK(ctx, ok, "trajectory-not-updated", sname << ": the trajectory seen through " << fn[first] << " as the first accessor after update() is not the updated trajectory (round " << r << ")");
+    }
     VCHECK(ctx, live.getNumSegments() == (int)T2.size() && live.getBreakpoints() == ft.getBreakpoints() &&
                     (live.getCoefficients().array() == ft.getCoefficients().array()).all(),
            "trajectory-not-updated", sname << ": exposed trajectory does not carry the latest update's breakpoints/coefficients (round " << r << ")");
